@@ -89,3 +89,18 @@ MANIFEST = {'note': 'H17 confirmed on the pinned code and repaired by FIX_C09 (S
          'in-process over a duplex stream, each notification awaited; publish log (uri, version, diagnostic ranges) compared with the model. Oracle '
          'lsp_unawaited fires conforming histories without awaiting at the real `sg lsp` process: server alive, final publish = highest version (regression '
          'oracle for the four repaired defects).'}
+
+
+# slice lsp_requests: requests work on the text of the highest version received; they do not touch the document map
+ENTRY["lean_modules"] += ["AstGrepVerif.Props.LspRequests"]
+ENTRY["theorems"] += [
+    "AGV.LspRequests.fixall_uses_latest",
+    "AGV.LspRequests.fixall_never_opened",
+    "AGV.LspRequests.requests_do_not_change_documents",
+    "AGV.LspRequests.session_documents",
+    "AGV.LspRequests.fixall_eq_execute",
+]
+ENTRY["units"] += ["lsp_requests"]
+ENTRY["trusted_base"] += [
+    "slice lsp_requests: the analysis of a text (the model's parameter `analyse`) is the real get_diagnostics taken from a second in-process server instance with the same rules; the harness' JSON-RPC client (framing, barrier by workspace/didChangeConfiguration, answering workspace/workspaceFolders and workspace/applyEdit), the classification of an executeCommand outcome by its log line, and the driver's decoding of wire diagnostics are trusted glue; handlers run one after the other (concurrency_level(1), as `sg lsp`)",
+]
